@@ -1,7 +1,7 @@
 (* The include walk and node rendering (Model/Node.v): read_class and the ignore settings (C16),
    each class merged at most once / include loops / termination (C01), no panics (C11). *)
 From RV Require Import Model.Node Proofs.ListsFacts Proofs.NamesFacts Proofs.ValueFacts Proofs.MappingFacts Proofs.WfFacts
-     Proofs.InterpFacts Proofs.NoPanic Proofs.YamlFacts.
+     Proofs.InterpFacts Proofs.NoPanic Proofs.YamlFacts Proofs.SemiClean.
 
 (** * read_class (C16) *)
 Lemma find_class_name n tbl ce : find_class n tbl = Some ce -> ce_name ce = n /\ In ce tbl.
@@ -48,7 +48,7 @@ Qed.
 (** * no panics (C11) *)
 Definition clean_doc (doc : yaml) : Prop :=
   match doc with
-  | YMap fields => match y_field "parameters" fields with Some y => clean_yaml y | None => True end
+  | YMap fields => match y_field "parameters" fields with Some y => sclean_yaml y | None => True end
   | _ => True
   end.
 
@@ -77,7 +77,8 @@ Proof.
   destruct (y_string_list "classes" (y_field "classes" fields)); cbn [bind]; try discriminate.
   destruct (y_field "parameters" fields) as [y|].
   - destruct y as [| | | | | pm |]; cbn [bind]; try discriminate.
-    unfold try_mapping_of_yaml. destruct (try_value_wf (YMap pm) Hc) as (v & -> & Hv). cbn [bind].
+    unfold try_mapping_of_yaml. destruct (try_value_of_yaml (YMap pm)) as [v| | |] eqn:Ev; cbn [bind]; try discriminate.
+    pose proof (try_value_wf_gen (YMap pm) v Hc Ev) as Hv.
     destruct v; try discriminate. intros H; injection H as <-. exact Hv.
   - cbn [bind]. intros H; injection H as <-. cbn. repeat split; constructor.
 Qed.
